@@ -248,6 +248,10 @@ def to_string(value: JSValue) -> str:
         return value
     if isinstance(value, JSArray):
         return array_to_string(value)
+    if isinstance(value, JSFunction) or (
+        callable(value) and not isinstance(value, JSObject)
+    ):
+        return "function () { [native code] }"
     # TODO: Handle objects with toString
     return "[object Object]"
 
